@@ -59,7 +59,11 @@ struct Case {
 
 fn to_bundle(c: &Case) -> SpendBundle {
     let mut cs: Vec<CoinSpend> = c.spends.iter().map(GSpend::coin_spend).collect();
-    if c.wrong_hash {
+    if c.wrong_hash && c.name.ends_with("wrong-hash-after-genuine") {
+        // spend 1 claims the puzzle hash that spend 0 has just proven, but reveals another puzzle
+        let s = &c.spends[1];
+        cs[1] = CoinSpend::new(Coin::new(Bytes32::new(s.parent), Bytes32::new(c.spends[0].puzzle_hash()), s.amount), Program::from(s.puzzle.serialize()), Program::from(s.solution.serialize()));
+    } else if c.wrong_hash {
         let s = &c.spends[0];
         cs[0] = CoinSpend::new(Coin::new(Bytes32::new(s.parent), Bytes32::new([0x99; 32]), s.amount), Program::from(s.puzzle.serialize()), Program::from(s.solution.serialize()));
     }
@@ -83,7 +87,11 @@ fn flag_sets() -> Vec<(String, ConsensusFlags)> {
             f |= ConsensusFlags::INTERNED_GENERATOR;
             n += "I";
         }
-        v.push((n, f));
+        v.push((n.clone(), f));
+        if bits & 1 != 0 {
+            // the mempool also asks for the dedup fingerprint: must not change the verdict
+            v.push((format!("{n}F"), f | ConsensusFlags::COMPUTE_FINGERPRINT));
+        }
     }
     v
 }
@@ -307,6 +315,8 @@ fn run(rep: &Report) {
             }
         }
         cases.push(Case { name: format!("1/{am:#x}/wrong-hash"), spends: vec![GSpend::identity(P1, am, Sx::nil())], wrong_hash: true });
+        cases.push(Case { name: format!("2/{am:#x}/wrong-hash-after-genuine"), spends: vec![GSpend::identity(P1, am, Sx::nil()), GSpend::quoted(P2, am, Sx::nil())], wrong_hash: true });
+        cases.push(Case { name: format!("2/{am:#x}/quoted-first/wrong-hash-after-genuine"), spends: vec![GSpend::quoted(P1, am, Sx::nil()), GSpend::identity(P2, am, Sx::nil())], wrong_hash: true });
     }
     // set 2: amount 5, identity puzzle, every ordered pair of letters
     let ids = Ids { a: (P1, phi, 5), c: (P2, phi, 5), b_ph: PH2, b_amount: 3 };
@@ -333,7 +343,7 @@ fn run(rep: &Report) {
         spends: vec![GSpend::identity(P1, 5, Sx::list(&[drive::cond(51, &[Sx::atom(&phi), Sx::int(3)])])), GSpend::identity(a_id, 3, Sx::list(&[drive::cond(76, &[])])), GSpend::identity(P2, 5, Sx::nil())],
         wrong_hash: false,
     });
-    rep.set_rule("bundles: (1) one spend x 23 amounts (every encoding length class) x 4 puzzle kinds (identity, quoted, apply-wrapper, raise) x <=1 of ~108 interaction letters + a wrong-declared-hash letter per amount; (2) amount 5, identity puzzle, every ordered pair of letters; (3) two spends sharing the puzzle with <=1 letter each; (4) an ephemeral chain of three; (5) three signed bundles through each builder with the middle one declined after serialisation, validated with signature checking; each under {MEMPOOL_MODE} x {COST_CONDITIONS} x {INTERNED_GENERATOR} through run_spendbundle and run_block_generator2 on solution_generator, solution_generator_backrefs, BlockBuilder and InternedBlockBuilder output. distinct = distinct bundles");
+    rep.set_rule("bundles: (1) one spend x 23 amounts (every encoding length class) x 4 puzzle kinds (identity, quoted, apply-wrapper, raise) x <=1 of ~108 interaction letters + a wrong-declared-hash letter per amount + two spends where the second claims the hash the first has just proven but reveals another puzzle; (2) amount 5, identity puzzle, every ordered pair of letters; (3) two spends sharing the puzzle with <=1 letter each; (4) an ephemeral chain of three; (5) three signed bundles through each builder with the middle one declined after serialisation, validated with signature checking; each under {MEMPOOL_MODE (with and without COMPUTE_FINGERPRINT)} x {COST_CONDITIONS} x {INTERNED_GENERATOR} through run_spendbundle and run_block_generator2 on solution_generator, solution_generator_backrefs, BlockBuilder and InternedBlockBuilder output. distinct = distinct bundles");
     rep.assume("mempool-only eligibility flags are masked; summaries are compared order-insensitively (generators list the spends in reverse bundle order)");
     rep.extra("cases", json!(cases.len()));
     cases.par_chunks(32).for_each(|chunk| {
